@@ -33,7 +33,14 @@ fn frame_on_all_sinks(d: &[u8], level: u32) -> Result<Vec<Vec<u8>>, String> {
     b.write_compressed(d, opts).map_err(|e| e.to_string())?;
     let mut c = SerializationContext::new(Vec::new());
     c.write_compressed(d, opts).map_err(|e| e.to_string())?;
-    Ok(vec![a, b.to_vec(), c.into_output()])
+    // the size calculator (alone and under a context) must count exactly the bytes the other sinks hold, at every level
+    let mut sz = desert_core::SizeCalculator::new();
+    sz.write_compressed(d, opts).map_err(|e| e.to_string())?;
+    let mut csz = SerializationContext::new(desert_core::SizeCalculator::new());
+    csz.write_compressed(d, opts).map_err(|e| e.to_string())?;
+    let mut cb = SerializationContext::new(BytesMut::new());
+    cb.write_compressed(d, opts).map_err(|e| e.to_string())?;
+    Ok(vec![a, b.to_vec(), c.into_output(), cb.into_output().to_vec(), vec![0; sz.size()], vec![0; csz.into_output().size()]])
 }
 // the library takes flate2::Compression; dv depends on the same flate2 through desert_core's re-export-free API,
 // so the level is passed through this helper
@@ -236,8 +243,11 @@ pub fn compress_case(case: &Value, _d: Dispatch, r: &mut Report) {
                     continue;
                 }
             };
-            if fs[1] != fs[0] || fs[2] != fs[0] {
-                r.finding("sinks", &["C16", "C15"], json!({"content": name, "level": level, "lens": [fs[0].len(), fs[1].len(), fs[2].len()]}));
+            if fs[4].len() != fs[0].len() || fs[5].len() != fs[0].len() {
+                r.finding("size_calculator", &["C15", "C16"], json!({"content": name, "level": level, "written": fs[0].len(), "calculated": [fs[4].len(), fs[5].len()]}));
+            }
+            if fs[1] != fs[0] || fs[2] != fs[0] || fs[3] != fs[0] {
+                r.finding("sinks", &["C16", "C15"], json!({"content": name, "level": level, "lens": [fs[0].len(), fs[1].len(), fs[2].len(), fs[3].len()]}));
             }
             let f = &fs[0];
             if d.len() <= 70000 {
@@ -266,7 +276,8 @@ pub fn compress_case(case: &Value, _d: Dispatch, r: &mut Report) {
             let n_f = f.len();
             for k in 0..n_f {
                 let near_edge = k < 48 || k + 40 >= n_f;
-                if !(near_edge || k % if dense { 7 } else { 64 } == 0) {
+                // (at most ~4000 interior cuts per frame: every cut of a large frame copies it)
+                if !(near_edge || k % std::cmp::max(if dense { 7 } else { 64 }, n_f / 4000) == 0) {
                     continue;
                 }
                 let s = k % 3;
@@ -330,7 +341,7 @@ pub fn compress_case(case: &Value, _d: Dispatch, r: &mut Report) {
                         let limit = std::cmp::max(65536, 2 * produced);
                         writeln!(trace, "{}", json!({"ev": "read", "kind": "damaged", "dlen": d.len(), "frame": x.len(), "suffix": 0,
                             "ok": res.ok, "consumed": res.consumed, "produced": produced, "maxreq": res.maxreq})).unwrap();
-                        if res.ok {
+                        if res.ok && res.data.len() <= (1 << 20) {
                             r.count("read_damaged_twice_with_different_fresh_memory");
                             let again = read_on_filled(s, x, 0x5A);
                             if !matches!(&again, Ok(a) if a.ok && a.data == res.data) {
@@ -362,11 +373,17 @@ pub fn stored_case(case: &Value, _d: Dispatch, r: &mut Report) {
         for blk in c["blocks"].as_array().unwrap() {
             let mut b = bytes_of(&blk[1]);
             let n = b.len();
+            let agrees = blk[0][0].as_u64() == Some(0) && blk[0][1].as_u64() == Some(d.len() as u64);
             b.extend([0xAB, 0x80]);
             for s in 0..3 {
                 r.count("stored_block");
                 match read_on(s, &b) {
                     Ok(res) if res.ok && res.data == d && res.consumed == n => {}
+                    // a header that announces another length than the content has: C16 allows any Ok or Err; the
+                    // specification models the pinned behaviour (the announcement is a hint, L12) - a deviation is
+                    // reported as a note outside the listed properties, never as a verdict
+                    Ok(res) if !agrees => r.finding("stored_block_announced", &["X-L12"], json!({"content": d.len(), "announced": blk[0], "source": SOURCES[s],
+                        "ok": res.ok, "produced": res.data.len(), "consumed": res.consumed, "block_len": n})),
                     Ok(res) => r.finding("stored_block", &["C16"], json!({"content": d.len(), "splits": c["cuts"], "padding": c["pads"], "announced": blk[0], "source": SOURCES[s],
                         "block_head": &b[..b.len().min(24)], "ok": res.ok, "produced": res.data.len(), "consumed": res.consumed, "block_len": n})),
                     Err(p) => r.finding("stored_block", &["C16", "C05"], json!({"content": d.len(), "splits": c["cuts"], "announced": blk[0], "panic": p})),
